@@ -468,7 +468,9 @@ func alphabetBuilder(p *core.Program) *ssa.Function {
 		if _, _, isDraw := roles.IsDrawCall(p, core.Strip(ia.Index)); !isDraw {
 			return
 		}
-		if c, ok := core.StripType(ia.X).(*ssa.Call); ok {
+		// through a merge left by an expanded helper that returned (alphabet, error): the edge `err == nil` selects
+		x := core.SelectedEdge(core.StripType(ia.X), core.Guards(ia.Block()))
+		if c, ok := core.StripType(x).(*ssa.Call); ok {
 			if f := core.StaticCallee(c); f != nil && p.InLib(f) {
 				found = f
 			}
